@@ -160,6 +160,11 @@ func (s *jwtSigner) Hash() []byte {
 	hash.Write(stringx.ToBytes(jwk.Algorithm))
 	hash.Write(stringx.ToBytes(s.iss))
 
+	// the key itself may change while its id stays the same (e.g. if the key id is configured)
+	if thumbprint, err := jwk.Thumbprint(crypto.SHA256); err == nil {
+		hash.Write(thumbprint)
+	}
+
 	return hash.Sum(nil)
 }
 
